@@ -17,6 +17,15 @@ bag<Item, Alloc>::bag(ygm::comm &comm) : m_comm(comm), pthis(this) {
 }
 
 template <typename Item, typename Alloc>
+bag<Item, Alloc>::bag(const self_type &rhs)
+    : m_round_robin(rhs.m_round_robin), m_comm(rhs.m_comm), pthis(this) {
+  // Inserts still in flight to rhs belong to the contents being copied
+  m_comm.barrier();
+  m_local_bag = rhs.m_local_bag;
+  pthis.check(m_comm);
+}
+
+template <typename Item, typename Alloc>
 bag<Item, Alloc>::~bag() {
   m_comm.barrier();
 }
